@@ -12,9 +12,18 @@ tokens:  A<n>,<hl>,<bl>[,<env>]  accept (recipients 1..n, header/body of hl/bl b
            n null reverse-path | z null reverse-path + mixed recipients — the model only reads "null or not")
          +<k>  issue k file operations (calls the real code made: a zero-length write is not one)
          C commit   B abort   D dispatch   O<letters o|t|p|u per recipient of the attempt>   P panic
+         O<add>/a<b>/<c>   the attempt stage by stage at a plain target: AddRcpt per recipient, Body, Commit
+         O<add>/n<b…>/<c>  … at a target implementing PartialDelivery: BodyNonAtomic status per ACCEPTED recipient
+           (the per-recipient errors of the attempt are `deliverErrs`, the model of `Queue.deliver`)
          X<keep>  crash     T<n>;<keep>  crash in the middle of the next write after n bytes      R restart
+         Rf<call>,<errno>  restart whose start-up scan meets a transient fault (errno: EMFILE, EIO, EACCES, …; the model
+           does not read it) at call openM | readM | statH | statB for this id: skipped and kept
+         Df<call>,<errno>  dispatch whose openMessage meets a transient fault at call openM | readM | statB | openH
          S<par>  max_parallelism of the recovery runs (only in lines named by a violation; no choice of the model:
            the history of one id does not depend on it, `C02_backlog_*`)
+         L<k>  name of the spool directory (index into the harness's list of unusual but legal names: glob
+           metacharacters, spaces, `%`, leading dash, non-ASCII, very long); no choice of the model: the procedures
+           address the five files of an id by name, whatever the directory is called
          keep = a (nothing lost) | d (all un-synced data lost) | <h>,<b>,<m>,<n> kept pending bytes per file (a = all)
 `hp` = does `textproto.ReadHeader` accept the header bytes found after the crash (computed by the real code).
 
@@ -89,6 +98,15 @@ def envNull : List String → Option Bool
            else if e == "n" || e == "z" then some true else none
   | _ => none
 
+def faultAt (t : String) : Option FaultAt :=
+  match (t.splitOn ",").head? with
+  | some "openM" => some .openMeta
+  | some "readM" => some .readMeta
+  | some "statH" => some .statHeader
+  | some "statB" => some .statBody
+  | some "openH" => some .openHeader
+  | _ => none
+
 /-- Parse one token into the choices it stands for (needs the state for `O`). -/
 def parseTok (s : St) (t : String) : Option (List Choice) :=
   match t.toList with
@@ -99,15 +117,42 @@ def parseTok (s : St) (t : String) : Option (List Choice) :=
     | _, _ => none
   | '+' :: rest => (String.ofList rest).toNat?.map (fun k => List.replicate k Choice.op)
   | 'S' :: rest => (String.ofList rest).toNat?.map (fun _ => [])
+  | 'L' :: rest => (String.ofList rest).toNat?.map (fun _ => [])
   | ['C'] => some [.commit]
   | ['B'] => some [.abort]
   | ['D'] => some [.dispatch]
   | ['P'] => some [.panic]
   | ['R'] => some [.restart]
+  | 'R' :: 'f' :: rest => (faultAt (String.ofList rest)).map (fun w => [Choice.scanFault w])
+  | 'D' :: 'f' :: rest => (faultAt (String.ofList rest)).map (fun w => [Choice.openFault w])
   | 'O' :: rest =>
-    match s.pc, rest.mapM clsOf with
-    | .attempting m, some cs => if cs.length = m.to.length then some [.outcome (lookupErr m.to cs)] else none
-    | _, _ => none
+    match s.pc with
+    | .attempting m =>
+      match (String.ofList rest).splitOn "/" with
+      | [add] =>
+        match add.toList.mapM clsOf with
+        | some cs => if cs.length = m.to.length then some [.outcome (lookupErr m.to cs)] else none
+        | none => none
+      | [add, body, commit] =>
+        match add.toList.mapM clsOf, body.toList, commit.toList.mapM clsOf with
+        | some cs, k :: bl, some [cm] =>
+          let addE := lookupErr m.to cs
+          let acc := m.to.filter (fun r => (addE r).isNone)
+          match bl.mapM clsOf with
+          | some bs =>
+            if cs.length != m.to.length then none
+            else if k == 'a' then
+              match bs with
+              | [b] => some [.outcome (deliverErrs m.to ⟨addE, false, b, fun _ => none, cm⟩)]
+              | _ => none
+            else if k == 'n' then
+              if bs.length = acc.length then some [.outcome (deliverErrs m.to ⟨addE, true, none, lookupErr acc bs, cm⟩)]
+              else none
+            else none
+          | none => none
+        | _, _, _ => none
+      | _ => none
+    | _ => none
   | 'X' :: rest => (parseKeep (String.ofList rest)).map (fun k => [Choice.crash k])
   | 'T' :: rest =>
     match (String.ofList rest).splitOn ";" with
@@ -137,6 +182,8 @@ def labels (P : Params) (s : St) (c : Choice) (s' : St) : List String :=
     | _ => []
   | .panic => ["PANIC"]
   | .restart => if s.disk.metaF.isSome then ["scan"] else []
+  | .scanFault _ => ["scan"]
+  | .openFault _ => ["disp", "openfail"]
   | _ => []
 
 def showFile (tag : String) : Option File → String
@@ -190,6 +237,7 @@ def runToks (P : Params) : List String → St → List String → Nat → Except
           | some s' =>
             let acc' := match c with
               | .restart => labels P s c s'
+              | .scanFault _ => labels P s c s'
               | _ => acc ++ labels P s c s'
             go cs (skipEmptyWrites P s' 2) acc'
       match go cs s acc with
